@@ -183,6 +183,17 @@ class TreeGen(object):
             self.tags.add("symbol")
             if ch.p(0.4):
                 return "(string->symbol %s)" % ch.pick(['"hello"', '""', '"1"', '"+1"', '"-"', '"1/2"', '"a b"', '"#foo"', '"|"', '"a|b"', '"\\\\"', '"."', '".."', '"1e5"', '"+inf.0"', '"A"', '"nan"', '"#t"', '"a;b"', '"(x)"', '"\'q"', '"+i"', '"-5x"', '"@"'])
+            if ch.p(0.5):
+                # names that look like (or start like) other lexical classes: numbers in any letter case, a leading
+                # dot / sign / quote / backquote / comma / hash, peculiar identifiers
+                if ch.p(0.4):
+                    name = ch.pick([".5", "-.5", "+.5e3", "`a", "`", ",a", ",@a", "'a", "+INF.0", "-Inf.0", "+inf.0", "+NaN.0", "-nan.0", "+I", "-i",
+                                    "1E5", "1e5", "#E1", "#xff", "#X1F", "1/2", "+1/2", "1@2", "+inf.0i", "1+2i", "1+I", "...", "..", ".a", "a.b",
+                                    "+", "-", "+a", "-a", "+.", "-.", "+..", "1+", "-@", "+@", "@", "a@", "#", "a#", "#!eof", "#;", "#|", "|#"])
+                else:
+                    alpha = "+-.`,@#|\\\"' 0123456789aAeEiInNfFxX/{}[];()"
+                    name = "".join(alpha[ch.n(len(alpha))] for _ in range(1 + ch.n(4)))
+                return "(string->symbol %s)" % E.scm_str(name)
             return "(string->symbol %s)" % str_expr(ch, 4)
         if k == 8:
             return ch.pick(["#t", "#f", "'()", "(if #f #f)" if False else "'()", "(eof-object)" if False else "#t"])
@@ -210,7 +221,47 @@ class TreeGen(object):
             return "(let ((s %s)) (list s %s s))" % (self.tree(depth - 1), self.tree(depth - 1))
         if k == 4:
             return "(list 'quote %s)" % self.tree(depth - 1)
+        if ch.p(0.5):
+            return self.dag(depth)
         return "(list %s %s)" % (self.tree(depth - 1), self.leaf())
+
+    def dag(self, depth):
+        """acyclic structure with sharing: later nodes refer to earlier ones in car, cdr and vector positions, so that
+        shared tails of shared tails, shared cars of shared pairs ... occur"""
+        ch = self.ch
+        self.tags.add("shared")
+        self.tags.add("dag")
+        n = 2 + ch.n(4)
+        binds = []
+        if ch.p(0.35):
+            # a chain of tails, each of them also referenced directly: (x . #0=(y . #1=(z)))
+            self.tags.add("shared-tail-chain")
+            binds.append("(s0 %s)" % ch.pick(["(list %s)" % self.leaf(), "'()", "(vector %s)" % self.leaf(), self.leaf()]))
+            for i in range(1, n):
+                binds.append("(s%d (cons %s s%d))" % (i, self.leaf(), i - 1))
+            order = list(range(n))
+            random.Random(ch.n(1000)).shuffle(order)
+            return "(let* (%s) (%s %s))" % (" ".join(binds), ch.pick(["list", "list", "vector", "cons*"]) if False else ch.pick(["list", "vector"]),
+                                            " ".join("s%d" % i for i in order))
+        for i in range(n):
+            def ref():
+                return "s%d" % ch.n(i) if (i > 0 and ch.p(0.7)) else self.leaf()
+            k = ch.n(6)
+            if k == 0:
+                e = "(list %s)" % self.leaf()
+            elif k == 1:
+                e = "(cons %s %s)" % (self.leaf(), ref())
+            elif k == 2:
+                e = "(cons %s %s)" % (ref(), ref())
+            elif k == 3:
+                e = "(vector %s %s)" % (ref(), self.leaf())
+            elif k == 4:
+                e = "(list %s %s)" % (ref(), ref())
+            else:
+                e = "(cons %s (cons %s %s))" % (self.leaf(), ref(), ref())
+            binds.append("(s%d %s)" % (i, e))
+        items = " ".join("s%d" % ch.n(n) for _ in range(2 + ch.n(4)))
+        return "(let* (%s) (%s %s))" % (" ".join(binds), ch.pick(["list", "list", "vector"]), items)
 
     def cyclic(self):
         ch = self.ch
@@ -226,7 +277,7 @@ class TreeGen(object):
         return "(let ((p (list 1 2)) (v (vector 0 0))) (vector-set! v 0 p) (vector-set! v 1 v) (set-cdr! (cdr p) (list v p)) v)"
 
 
-NT_TAGS = {"bignum", "ratio", "complex", "shared", "cycle", "symbol"}
+NT_TAGS = {"bignum", "ratio", "complex", "shared", "cycle", "symbol", "dag"}
 
 
 _D = None
